@@ -152,6 +152,21 @@ Ev(e, env) ==
   CASE e.k = "const" -> e.v
     [] e.k = "field" -> IF e.f \in DOMAIN env THEN env[e.f] ELSE Mi
     [] e.k = "var"   -> env["$x"]
+    [] e.k = "var2"  -> env["$y"]
+    [] e.k = "gen2"  -> \* any/all( elt for x in it if cond for y in it2 ): the filter belongs to the OUTER clause
+         LET it == Ev(e.it, env) IN
+         IF Bad(it) THEN it ELSE IF it.t = "missing" THEN Un ELSE IF ~Iterable(it) THEN Err
+         ELSE LET xs == Iter(it)
+                  envX(i) == [n \in DOMAIN env \cup {"$x"} |-> IF n = "$x" THEN xs[i] ELSE env[n]]
+                  cond(i) == Truth(Ev(e.cond, envX(i)))
+                  it2(i) == Ev(e.it2, envX(i))
+                  ys(i) == Iter(it2(i))
+                  envXY(i, j) == [n \in DOMAIN env \cup {"$x", "$y"} |-> IF n = "$x" THEN xs[i] ELSE IF n = "$y" THEN ys(i)[j] ELSE env[n]]
+                  elt(i, j) == Truth(Ev(e.elt, envXY(i, j)))
+                  badI(i) == Bad(cond(i)) \/ (~Bad(cond(i)) /\ cond(i).v /\ (Bad(it2(i)) \/ it2(i).t = "missing" \/ ~Iterable(it2(i)) \/ \E j \in DOMAIN ys(i) : Bad(elt(i, j))))
+              IN IF \E i \in DOMAIN xs : badI(i) THEN Un
+                 ELSE IF e.q = "any" THEN Bv(\E i \in DOMAIN xs : cond(i).v /\ \E j \in DOMAIN ys(i) : elt(i, j).v)
+                 ELSE Bv(\A i \in DOMAIN xs : cond(i).v => \A j \in DOMAIN ys(i) : elt(i, j).v)
     [] e.k = "tref"  -> LET names == SelectSeq(env["$order"].v, LAMBDA f : env["$types"].v[f] = e.ty)
                         IN [t |-> "tref", v |-> [i \in DOMAIN names |-> env[names[i]]]]
     [] e.k = "ctor"  -> [t |-> "net", v |-> e.arg]        \* a field-type constructor call: net.ipv4.Subnet('10.0.0.0/8'), net.ipnetwork(...)
